@@ -59,7 +59,9 @@ def step (line : String) : String :=
 
 def isSecretPath (p : Path) : Bool :=
   match Gen.C35.leaves.find? (fun l => l.yaml == p) with
-  | some l => isSecretLeaf l
+  -- the property's classes, plus (so that a new secret-looking field yields a concrete leaking
+  -- configuration and not only a broken tie) every name-screened leaf that is not allow-listed
+  | some l => isSecretLeaf l || (l.looksSecret && !notSecretAllowList.contains l.yaml)
   | none => false
 
 def showLoc (l : Loc) : String := ".".intercalate l.path ++ "@" ++ ",".intercalate (l.idx.map toString)
